@@ -136,6 +136,7 @@ def run_cell(cell, rec, seed):
             p = L_.pdf.GaussianPDF(Sigma=J(Sig), mu=J(mu))
             mass = np.ones(R)
             ln_mass_abs = np.zeros(R)
+            via_update = rep == 1
         else:
             kappa = float(rng.choice(gen.KAPPAS))
             p, t = build.mk_measure("measure" if rep == 0 else "diag_measure", rng, R, D,
@@ -193,7 +194,17 @@ def run_cell(cell, rec, seed):
             vec = draw((R, D) if per else (D,))
             kw = {"b_vec": J(vec)}
             truth_m, truth_v = [vec], [np.zeros((R, 1), dtype=int) if per else np.zeros(1, dtype=int)]
-        info = {"key": key, "D": D, "R": R, "K": K, "L": L, "M": M, "layout": lay, "mode": mode}
+        if exact and via_update:
+            # history: another density on which the same integral was already taken, then
+            # overwritten in place with update(); must be indistinguishable from a fresh one
+            def warm(o):
+                o.integrate(key, **kw)
+                getattr(o, NAMED[key])(**kw)
+            p = build.pdf_via_update(rng, build.Truth(mu=np.asarray(mu, dtype=float),
+                                                      Sigma=np.asarray(Sig, dtype=float)),
+                                     False, warm=warm)
+        info = {"key": key, "D": D, "R": R, "K": K, "L": L, "M": M, "layout": lay, "mode": mode,
+                "via_update": bool(exact and via_update)}
         # ----- oracle per component
         refs, scales = [], []
         big = False
